@@ -268,17 +268,18 @@ Proof.
   assert (Hall : forall x, In x m -> x = b) by apply line_slopes.
   assert (Hlen : length m = M) by apply length_line_slopes.
   assert (Hne : m <> []) by (intros E; rewrite E in Hlen; cbn in Hlen; lia).
-  apply (fun H => H _ (nth_In _ 0 ltac:(
-    rewrite !app_length, map_length, combine_length; cbn [length];
-    assert (length (tl m) = (M - 1)%nat) by (destruct m; cbn in *; lia); lia))).
-  intros x Hx. apply in_app_or in Hx. destruct Hx as [Hx|Hx].
-  - destruct Hx as [<-|[]]. destruct m as [|y r]; [congruence|]. apply Hall. now left.
-  - apply in_app_or in Hx. destruct Hx as [Hx|[<-|[]]].
-    + apply in_map_iff in Hx. destruct Hx as ((u, w) & <- & Hp). cbn [fst snd].
-      pose proof (in_combine_l _ _ _ _ Hp) as Hu. pose proof (in_combine_r _ _ _ _ Hp) as Hw.
-      assert (Hw' : In w m) by (destruct m; [destruct Hw|now right]).
-      rewrite (Hall u Hu), (Hall w Hw'). num_unfold. field.
-    + apply Hall. now apply last_In.
+  assert (Hall2 : forall x, In x ([hd zero m] ++ map (fun p => div (add (snd p) (fst p)) two) (combine m (tl m)) ++ [List.last m zero]) -> x = b).
+  { intros x Hx. apply in_app_or in Hx. destruct Hx as [Hx|Hx].
+    - destruct Hx as [<-|[]]. destruct m as [|y r]; [congruence|]. apply Hall. now left.
+    - apply in_app_or in Hx. destruct Hx as [Hx|[<-|[]]].
+      + apply in_map_iff in Hx. destruct Hx as ((u, w) & <- & Hp). cbn [fst snd].
+        pose proof (in_combine_l _ _ _ _ Hp) as Hu. pose proof (in_combine_r _ _ _ _ Hp) as Hw.
+        assert (Hw' : In w m) by (destruct m; [destruct Hw|now right]).
+        rewrite (Hall u Hu), (Hall w Hw'). num_unfold. field.
+      + apply Hall. now apply last_In. }
+  apply Hall2. apply nth_In.
+  rewrite !app_length, map_length, combine_length. cbn [length].
+  assert (length (tl m) = (M - 1)%nat) by (destruct m; cbn in *; lia). lia.
 Qed.
 
 Lemma searchsorted_lt (M : nat) : forall (a : Z) (v : R), (1 <= M)%nat -> v <= IZR a + INR M - 1 ->
@@ -305,7 +306,7 @@ Proof.
   rewrite (chs_point_idx _ _ M n v Hlt eq_refl). cbv zeta.
   rewrite !line_tangents by lia.
   unfold line_pts. rewrite !(nth_map_d _ _ _ _ 0%Z) by (rewrite length_zrange; lia).
-  rewrite !nth_zrange by lia. rewrite Nat2Z.inj_succ, succ_IZR, <- INR_IZR_INZ. cbn [Z.add]. ring.
+  rewrite !nth_zrange by lia. rewrite !Z.add_0_l, Nat2Z.inj_succ, succ_IZR, <- INR_IZR_INZ. ring.
 Qed.
 
 (* chs_count a b is the number of multiples of the interval a/b in [0, 1) *)
@@ -320,14 +321,11 @@ Proof.
       replace (IZR j * (IZR a / IZR b) * IZR b) with (IZR j * IZR a) in H by (field; lra). lra.
     - apply IZR_lt in H. rewrite mult_IZR in H. apply (Rmult_lt_reg_r (IZR b)); [assumption|].
       replace (IZR j * (IZR a / IZR b) * IZR b) with (IZR j * IZR a) by (field; lra). lra. }
-  rewrite E. split; intros H.
-  - apply Z.div_lt_upper_bound in H; try lia. apply Z.lt_le_trans with (m := ((b - 1) / a + 1)%Z).
-    + assert ((b - 1) / a >= j)%Z; [|lia]. apply Z.le_ge. apply Z.div_le_lower_bound; lia.
-    + replace (b + a - 1)%Z with ((b - 1) + 1 * a)%Z by lia. rewrite Z.div_add by lia. lia.
-  - replace (b + a - 1)%Z with ((b - 1) + 1 * a)%Z in H by lia. rewrite Z.div_add in H by lia.
-    assert (j <= (b - 1) / a)%Z by lia.
-    assert (j * a <= b - 1)%Z; [|lia].
-    apply Z.le_trans with (m := (a * ((b - 1) / a))%Z); [nia|]. apply Z.mul_div_le. lia.
+  rewrite E. replace (b + a - 1)%Z with ((b - 1) + 1 * a)%Z by lia. rewrite Z.div_add by lia.
+  split; intros H.
+  - assert (j <= (b - 1) / a)%Z; [|lia]. apply Z.div_le_lower_bound; lia.
+  - assert (Hj' : (j <= (b - 1) / a)%Z) by lia.
+    pose proof (Z.mul_div_le (b - 1) a ltac:(lia)). nia.
 Qed.
 
 (* ================================================================== bspline *)
@@ -361,14 +359,15 @@ Proof.
   replace (S i + 1)%nat with (S (i + 1)) by lia. replace (S i + 2)%nat with (S (i + 2)) by lia.
   replace (S i + 3)%nat with (S (i + 3)) by lia. reflexivity.
 Qed.
-Lemma windows4_map {H : Type} (f : G -> H) (l : list G) :
+End Windows.
+Lemma windows4_map {G H : Type} (f : G -> H) (l : list G) :
   windows4 H (map f l) = map (fun W : win G => match W with (a, b, c, d) => (f a, f b, f c, f d) end) (windows4 G l).
 Proof.
   induction l as [|a r IH]; [reflexivity|].
   destruct r as [|b [|c [|d r']]]; try reflexivity.
   cbn [map] in *. rewrite !windows4_cons4. cbn [map]. now rewrite IH.
 Qed.
-End Windows.
+
 
 Lemma last_map {A B} (f : A -> B) l d : List.last (map f l) (f d) = f (List.last l d).
 Proof. induction l as [|x [|y l] IH]; try reflexivity. cbn [map List.last] in *. apply IH. Qed.
@@ -377,6 +376,12 @@ Proof.
   induction l as [|x [|y l] IH]; try reflexivity.
   change (List.last (x :: y :: l) d) with (List.last (y :: l) d). rewrite IH. cbn [length].
   replace (S (S (length l)) - 1)%nat with (S (S (length l) - 1)) by lia. reflexivity.
+Qed.
+
+Lemma last_indep_ne {A} (l : list A) d d' : l <> [] -> List.last l d = List.last l d'.
+Proof.
+  induction l as [|x [|y l] IH]; [congruence|reflexivity|]. intros _.
+  change (List.last (y :: l) d = List.last (y :: l) d'). apply IH. discriminate.
 Qed.
 
 Section BsplineLaws.
@@ -397,15 +402,15 @@ Hypothesis inv_r : forall a, gmul a (ginv a) = gid.
 
 Local Notation seg := (bs_seg G A gmul ginv gexp glog ascale).
 Local Notation bspl := (bspline G A gmul ginv gexp glog ascale).
-Infix "*" := gmul.
+Local Infix "<*>" := gmul (at level 40, left associativity).
 
-Lemma inv_unique x y : y * x = gid -> y = ginv x.
+Lemma inv_unique x y : y <*> x = gid -> y = ginv x.
 Proof. intros H. rewrite <- (mul_id_r y), <- (inv_r x), <- mul_assoc, H. apply mul_id_l. Qed.
-Lemma inv_mul g a : ginv (g * a) = ginv a * ginv g.
+Lemma inv_mul g a : ginv (g <*> a) = ginv a <*> ginv g.
 Proof.
   symmetry. apply inv_unique. rewrite mul_assoc, <- (mul_assoc (ginv g)), inv_l, mul_id_l. apply inv_l.
 Qed.
-Lemma rel_left g a b : ginv (g * a) * (g * b) = ginv a * b.
+Lemma rel_left g a b : ginv (g <*> a) <*> (g <*> b) = ginv a <*> b.
 Proof. rewrite inv_mul, mul_assoc, <- (mul_assoc (ginv g)), inv_l, mul_id_l. reflexivity. Qed.
 
 (* ---- the output as a list of segments *)
@@ -489,11 +494,15 @@ Proof.
     replace (i + 1 + 1)%nat with (i + 2)%nat by lia. replace (i + 1 + 2)%nat with (i + 3)%nat by lia.
     cbn [Z.of_nat]. apply bs_seg_continuous.
   - rewrite <- HL, nth_bs_out_last, last_nth, HL, (nth_windows4 data _ d W0) by lia.
-    rewrite bs_w_1. repeat f_equal; lia.
+    rewrite bs_w_1.
+    replace (length data - 3 - 1)%nat with (length data - 4)%nat by lia.
+    replace (length data - 4 + 1)%nat with (length data - 3)%nat by lia.
+    replace (length data - 4 + 2)%nat with (length data - 2)%nat by lia.
+    replace (length data - 4 + 3)%nat with (length data - 1)%nat by lia. reflexivity.
 Qed.
 
 (* ---- left equivariance *)
-Lemma bs_seg_left g P0 P1 P2 P3 w : seg (g * P0, g * P1, g * P2, g * P3) w = g * seg (P0, P1, P2, P3) w.
+Lemma bs_seg_left g P0 P1 P2 P3 w : seg (g <*> P0, g <*> P1, g <*> P2, g <*> P3) w = g <*> seg (P0, P1, P2, P3) w.
 Proof. unfold bs_seg. destruct w as [[w0 w1] w2]. rewrite !rel_left, !mul_assoc. reflexivity. Qed.
 
 Lemma bs_pad_map (f : G -> G) data : bs_pad G (map f data) = map f (bs_pad G data).
@@ -509,17 +518,18 @@ Proof.
   assert (E : (if ex then bs_pad G (map (gmul g) data) else map (gmul g) data)
               = map (gmul g) (if ex then bs_pad G data else data)) by (destruct ex; [apply bs_pad_map|reflexivity]).
   rewrite E, windows4_map. set (ws := windows4 G (if ex then bs_pad G data else data)).
-  set (fw := fun W : win G => match W with (a, b, c, d) => (g * a, g * b, g * c, g * d) end).
-  assert (Hseg : forall W w, seg (fw W) w = g * seg W w) by (intros [[[a b] c] d] w; apply bs_seg_left).
+  set (fw := fun W : win G => match W with (a, b, c, d) => (g <*> a, g <*> b, g <*> c, g <*> d) end).
+  assert (Hseg : forall W w, seg (fw W) w = g <*> seg W w) by (intros [[[a b] c] d] w; apply bs_seg_left).
   destruct ws as [|W0 ws']; [reflexivity|]. cbn [map option_map]. f_equal.
+  rewrite map_app. cbn [map].
   change (fw W0 :: map fw ws') with (map fw (W0 :: ws')).
-  rewrite map_app. cbn [map]. rewrite last_map, Hseg. f_equal.
+  rewrite last_map, Hseg. f_equal.
   generalize (W0 :: ws'). intros l. induction l as [|W l IH]; [reflexivity|].
   cbn [map flat_map]. rewrite map_app, IH. f_equal. rewrite map_map. apply map_ext. intros u. apply Hseg.
 Qed.
 
 (* ---- constant-twist motions T0 Exp(t xi) *)
-Hypothesis one_param : forall a b x, gexp (ascale a x) * gexp (ascale b x) = gexp (ascale (a + b) x).
+Hypothesis one_param : forall a b x, gexp (ascale a x) <*> gexp (ascale b x) = gexp (ascale (a + b) x).
 
 Lemma exp_inv a x : ginv (gexp (ascale a x)) = gexp (ascale (- a) x).
 Proof.
@@ -527,18 +537,18 @@ Proof.
 Qed.
 
 Definition twist_path (T0 : G) (xi : A) (N : nat) : list G :=
-  map (fun j => T0 * gexp (ascale (IZR j) xi)) (zrange 0 N).
+  map (fun j => T0 <*> gexp (ascale (IZR j) xi)) (zrange 0 N).
 
 Lemma bs_seg_twist T0 xi (i : Z) w : glog (gexp xi) = xi ->
-  seg (T0 * gexp (ascale (IZR i) xi), T0 * gexp (ascale (IZR (i + 1)) xi),
-       T0 * gexp (ascale (IZR (i + 1 + 1)) xi), T0 * gexp (ascale (IZR (i + 1 + 1 + 1)) xi)) w
-  = T0 * gexp (ascale (IZR i + (fst (fst w) + snd (fst w) + snd w)) xi).
+  seg (T0 <*> gexp (ascale (IZR i) xi), T0 <*> gexp (ascale (IZR (i + 1)) xi),
+       T0 <*> gexp (ascale (IZR (i + 1 + 1)) xi), T0 <*> gexp (ascale (IZR (i + 1 + 1 + 1)) xi)) w
+  = T0 <*> gexp (ascale (IZR i + (fst (fst w) + snd (fst w) + snd w)) xi).
 Proof.
   intros Hle. destruct w as [[w0 w1] w2]. unfold bs_seg. cbn [fst snd].
-  assert (Hd : forall j : Z, glog (ginv (T0 * gexp (ascale (IZR j) xi)) * (T0 * gexp (ascale (IZR (j + 1)) xi))) = xi).
+  assert (Hd : forall j : Z, glog (ginv (T0 <*> gexp (ascale (IZR j) xi)) <*> (T0 <*> gexp (ascale (IZR (j + 1)) xi))) = xi).
   { intros j. rewrite rel_left, exp_inv, one_param, plus_IZR.
     replace (- IZR j + (IZR j + 1)) with 1 by ring. now rewrite scale_one. }
-  rewrite !Hd, !one_param, mul_assoc, one_param. do 2 f_equal. ring.
+  rewrite !Hd, !one_param, mul_assoc, one_param. do 2 f_equal; ring.
 Qed.
 
 (* sample (i, j) of the spline through T0 Exp(n xi), n = 0..N-1, is T0 Exp((i + 1 + j q) xi);
@@ -546,8 +556,8 @@ Qed.
 Theorem bspline_constant_twist k q T0 xi N (d : G) : q < 1 -> (4 <= N)%nat -> glog (gexp xi) = xi ->
   exists out, bspl k q false (twist_path T0 xi N) = Some out /\
     (forall i j, (i + 3 < N)%nat -> (j < k)%nat ->
-       nth (i * k + j) out d = T0 * gexp (ascale (INR i + 1 + INR j * q) xi)) /\
-    nth ((N - 3) * k) out d = T0 * gexp (ascale (INR N - 2) xi).
+       nth (i * k + j) out d = T0 <*> gexp (ascale (INR i + 1 + INR j * q) xi)) /\
+    nth ((N - 3) * k) out d = T0 <*> gexp (ascale (INR N - 2) xi).
 Proof.
   intros Hq HN Hle.
   assert (HlenP : length (twist_path T0 xi N) = N) by (unfold twist_path; now rewrite map_length, length_zrange).
@@ -555,12 +565,12 @@ Proof.
   pose proof (length_windows4 (twist_path T0 xi N)) as HL. rewrite HlenP in HL.
   destruct (windows4 G (twist_path T0 xi N)) as [|W0 ws] eqn:E; [cbn in HL; lia|]. rewrite <- E in *.
   eexists; split; [reflexivity|].
-  assert (Hnth : forall n, (n < N)%nat -> nth n (twist_path T0 xi N) d = T0 * gexp (ascale (IZR (Z.of_nat n)) xi)).
+  assert (Hnth : forall n, (n < N)%nat -> nth n (twist_path T0 xi N) d = T0 <*> gexp (ascale (IZR (Z.of_nat n)) xi)).
   { intros n Hn. unfold twist_path. rewrite (nth_map_d _ _ _ _ 0%Z) by (now rewrite length_zrange).
     now rewrite nth_zrange. }
   assert (Hwin : forall i, (i + 3 < N)%nat -> forall w,
      seg (nth i (windows4 G (twist_path T0 xi N)) W0) w
-     = T0 * gexp (ascale (INR i + (fst (fst w) + snd (fst w) + snd w)) xi)).
+     = T0 <*> gexp (ascale (INR i + (fst (fst w) + snd (fst w) + snd w)) xi)).
   { intros i Hi w. rewrite (nth_windows4 _ i d W0) by (rewrite HlenP; lia).
     rewrite !Hnth by lia.
     replace (Z.of_nat (i + 1)) with (Z.of_nat i + 1)%Z by lia.
@@ -569,9 +579,10 @@ Proof.
     rewrite bs_seg_twist by assumption. now rewrite <- INR_IZR_INZ. }
   split.
   - intros i j Hi Hj. rewrite nth_bs_out_inner by lia. rewrite Hwin by assumption.
-    rewrite bs_w_sum, <- INR_IZR_INZ. f_equal. f_equal. ring.
+    rewrite bs_w_sum, <- INR_IZR_INZ. do 3 f_equal. ring.
   - rewrite <- HL, nth_bs_out_last, last_nth, HL, Hwin by lia.
-    rewrite <- bs_w_1, bs_w_sum. f_equal. f_equal. rewrite minus_INR by lia. cbn. ring.
+    rewrite <- bs_w_1, bs_w_sum. do 3 f_equal. replace (N - 3 - 1)%nat with (N - 4)%nat by lia.
+    rewrite minus_INR by lia. change (INR 4) with (1 + 1 + 1 + 1). ring.
 Qed.
 
 (* ---- extrapolate = True: the spline starts at the first and ends at the last pose *)
@@ -615,6 +626,84 @@ Proof.
     rewrite bs_wend_val. unfold bs_seg.
     rewrite scale_one, exp_log, inv_l, log_id, !scale_azero, exp_azero, !mul_id_r.
     rewrite <- mul_assoc, inv_r, mul_id_l.
-    unfold l. apply last_indep || reflexivity.
+    unfold l. apply last_indep_ne. discriminate.
 Qed.
 End BsplineLaws.
+
+(* ------------------------------------------------------------------ the hypotheses, bundled *)
+Definition group_laws {G : Type} (gmul : G -> G -> G) (ginv : G -> G) (gid : G) : Prop :=
+  (forall a b c, gmul (gmul a b) c = gmul a (gmul b c)) /\ (forall a, gmul gid a = a) /\
+  (forall a, gmul a gid = a) /\ (forall a, gmul (ginv a) a = gid) /\ (forall a, gmul a (ginv a) = gid).
+(* Exp/Log: Exp o Log = id on the group, scalar action with 1 x = x, Exp(0 x) = id, the
+   one-parameter-subgroup law, and Log id = 0 with c 0 = 0, Exp 0 = id *)
+Definition exp_log_laws {G A : Type} (gmul : G -> G -> G) (gid : G) (gexp : A -> G) (glog : G -> A)
+    (ascale : R -> A -> A) (azero : A) : Prop :=
+  (forall X, gexp (glog X) = X) /\ (forall x, ascale 1 x = x) /\ (forall x, gexp (ascale 0 x) = gid) /\
+  (forall a b x, gmul (gexp (ascale a x)) (gexp (ascale b x)) = gexp (ascale (a + b) x)) /\
+  glog gid = azero /\ (forall c, ascale c azero = azero) /\ gexp azero = gid.
+
+Section Bundled.
+Context {G A : Type} (gmul : G -> G -> G) (ginv : G -> G) (gid : G) (gexp : A -> G) (glog : G -> A)
+  (ascale : R -> A -> A) (azero : A).
+Hypothesis HG : group_laws gmul ginv gid.
+Hypothesis HE : exp_log_laws gmul gid gexp glog ascale azero.
+Local Notation seg := (bs_seg G A gmul ginv gexp glog ascale).
+Local Notation bspl := (bspline G A gmul ginv gexp glog ascale).
+
+Lemma bspline_continuous_b k q data (d : G) : q < 1 -> (4 <= length data)%nat -> (1 <= k)%nat ->
+  exists out, bspl k q false data = Some out /\
+    (forall i, (i + 4 < length data)%nat ->
+       seg (nth i data d, nth (i + 1) data d, nth (i + 2) data d, nth (i + 3) data d) (bs_w 1)
+       = nth ((i + 1) * k) out d) /\
+    seg (nth (length data - 4) data d, nth (length data - 3) data d, nth (length data - 2) data d,
+         nth (length data - 1) data d) (bs_w 1) = nth ((length data - 3) * k) out d.
+Proof.
+  destruct HG as (h1 & h2 & h3 & h4 & h5). destruct HE as (e1 & e2 & e3 & e4 & e5 & e6 & e7).
+  now apply (bspline_continuous G A gmul ginv gid gexp glog ascale h1 h2 h3 h5 e1 e2 e3).
+Qed.
+Lemma bspline_left_equivariant_b k q ex g data :
+  bspl k q ex (map (gmul g) data) = option_map (map (gmul g)) (bspl k q ex data).
+Proof.
+  destruct HG as (h1 & h2 & h3 & h4 & h5). now apply (bspline_left_equivariant G A gmul ginv gid gexp glog ascale h1 h2 h3 h4 h5).
+Qed.
+Lemma bspline_constant_twist_b k q T0 xi N (d : G) : q < 1 -> (4 <= N)%nat -> glog (gexp xi) = xi ->
+  exists out, bspl k q false (twist_path G A gmul gexp ascale T0 xi N) = Some out /\
+    (forall i j, (i + 3 < N)%nat -> (j < k)%nat ->
+       nth (i * k + j) out d = gmul T0 (gexp (ascale (INR i + 1 + INR j * q) xi))) /\
+    nth ((N - 3) * k) out d = gmul T0 (gexp (ascale (INR N - 2) xi)).
+Proof.
+  destruct HG as (h1 & h2 & h3 & h4 & h5). destruct HE as (e1 & e2 & e3 & e4 & e5 & e6 & e7).
+  now apply (bspline_constant_twist G A gmul ginv gid gexp glog ascale h1 h2 h3 h4 h5 e2 e3 e4).
+Qed.
+Lemma bspline_extrapolate_endpoints_b k q data (a : G) : q < 1 -> (1 <= k)%nat -> data <> [] ->
+  exists out, bspl k q true data = Some out /\ nth 0 out a = hd a data /\ List.last out a = List.last data a.
+Proof.
+  destruct HG as (h1 & h2 & h3 & h4 & h5). destruct HE as (e1 & e2 & e3 & e4 & e5 & e6 & e7).
+  now apply (bspline_extrapolate_endpoints G A gmul ginv gid gexp glog ascale azero h1 h2 h3 h4 h5 e1 e2 e3 e5 e6 e7).
+Qed.
+End Bundled.
+
+(* the hypotheses are satisfiable: the additive group of the reals with Exp = Log = id *)
+Lemma laws_instance_R :
+  group_laws Rplus Ropp 0 /\ exp_log_laws Rplus 0 (fun x : R => x) (fun x : R => x) Rmult 0 /\
+  (forall xi : R, (fun x : R => x) ((fun x : R => x) xi) = xi).
+Proof.
+  unfold group_laws, exp_log_laws. repeat split; intros; ring.
+Qed.
+
+(* ... and by a non-commutative group: the Heisenberg group with its (global) exponential *)
+Definition h3 := (R * R * R)%type.
+Definition h3_mul (p r : h3) : h3 :=
+  let '(a, b, c) := p in let '(a', b', c') := r in (a + a', b + b', c + c' + a * b').
+Definition h3_inv (p : h3) : h3 := let '(a, b, c) := p in (- a, - b, - c + a * b).
+Definition h3_exp (v : h3) : h3 := let '(x, y, z) := v in (x, y, z + x * y / 2).
+Definition h3_log (p : h3) : h3 := let '(a, b, c) := p in (a, b, c - a * b / 2).
+Definition h3_scale (s : R) (v : h3) : h3 := let '(x, y, z) := v in (s * x, s * y, s * z).
+Lemma laws_instance_Heisenberg :
+  group_laws h3_mul h3_inv (0, 0, 0) /\ exp_log_laws h3_mul (0, 0, 0) h3_exp h3_log h3_scale (0, 0, 0) /\
+  (forall xi, h3_log (h3_exp xi) = xi) /\ (exists p r, h3_mul p r <> h3_mul r p).
+Proof.
+  unfold group_laws, exp_log_laws, h3_mul, h3_inv, h3_exp, h3_log, h3_scale.
+  repeat split; intros; destruct_tuples; try (split_pairs; field).
+  exists (1, 0, 0), (0, 1, 0). intros H. injection H as H. lra.
+Qed.
